@@ -168,6 +168,82 @@ def feasible(cs):
             return True
 
 
+def _affine_value(eqs, l):
+    """The constant d with l == d on the affine set {e == 0 for e in eqs}, or None when l is not constant there
+    (Gaussian elimination over the rationals)."""
+    rows = []
+    for e in eqs:
+        e = Lin(dict(e.t), e.k)
+        for pv, r in rows:
+            if pv in e.t:
+                e = e - r.scale(e.t[pv])
+        if e.t:
+            pv = sorted(e.t, key=repr)[0]
+            rows.append((pv, e.scale(1 / e.t[pv])))
+    l = Lin(dict(l.t), l.k)
+    # back-substitution is not needed: eliminate pivots in order, repeatedly, until none is left
+    changed = True
+    while changed:
+        changed = False
+        for pv, r in rows:
+            if pv in l.t:
+                l = l - r.scale(l.t[pv])
+                changed = True
+    return l.k if not l.t else None
+
+
+def _reduce(cs):
+    """An equivalent, smaller constraint list: the equalities among cs are replaced by a reduced basis (Gauss-Jordan), their
+    pivot variables are substituted out of the inequalities, duplicates and trivially true results are dropped.  (A join
+    that discovers combinations of equalities would otherwise accumulate every combination it has ever found.)"""
+    S = set(cs)
+    eqs, ineqs, seen = [], [], set()
+    for c in cs:
+        m = (tuple((v, -k) for v, k in c[0]), -c[1])
+        if m in S:
+            if c not in seen and m not in seen:
+                eqs.append(_lin_of_con(c))
+            seen.add(c)
+            seen.add(m)
+        else:
+            ineqs.append(c)
+    if not eqs:
+        return list(cs)
+    rows = []
+    for e in eqs:
+        for pv, r in rows:
+            if pv in e.t:
+                e = e - r.scale(e.t[pv])
+        if not e.t:
+            if e.k != 0:
+                return list(cs)          # contradictory: leave it to the feasibility test
+            continue
+        # prefer to eliminate a program variable and keep entry-value symbols in the basis
+        pv = sorted(e.t, key=lambda v: (isinstance(v, tuple) and bool(v) and v[0] == "$entry", repr(v)))[0]
+        e = e.scale(1 / e.t[pv])
+        rows = [(q, r - e.scale(r.t[pv]) if pv in r.t else r) for q, r in rows]
+        rows.append((pv, e))
+    out = []
+    for pv, r in rows:
+        for c in (le0(r), le0(-r)):
+            if c is False:
+                return list(cs)
+            if c is not True:
+                out.append(c)
+    for c in ineqs:
+        l = _lin_of_con(c)
+        for pv, r in rows:
+            if pv in l.t:
+                l = l - r.scale(l.t[pv])
+        c2 = le0(l)
+        if c2 is False:
+            return list(cs)
+        if c2 is not True:
+            out.append(c2)
+    r = _simplify(out)
+    return r if r is not False else list(cs)
+
+
 def project(cs, v):
     """Eliminate variable v (one Fourier-Motzkin step)."""
     pos, neg, rest = [], [], []
@@ -815,6 +891,26 @@ class Analysis:
                         c = le0(_lin_of_con(hs[i]) + _lin_of_con(hs[j]))
                         if isinstance(c, tuple) and c not in keep and self._entailsP(Y, [c]):
                             keep.append(c)
+        # affine combinations (Karr): equalities l_i == 0, l_j == 0 of one side whose left sides are the constants d_i, d_j on the
+        # other side give d_j*l_i - d_i*l_j == 0 on both: "p == out, i == 0" joined with "p == out + 2, i == 1" keeps p - 2i == out
+        for X, Y in ((a, b),) if widen else ((a, b), (b, a)):
+            hs = []
+            for c in self._eq_halves(X):
+                m = (tuple((v, -k) for v, k in c[0]), -c[1])
+                if m not in hs:
+                    hs.append(c)
+            if 2 <= len(hs) <= 8:
+                ys = [_lin_of_con(c) for c in self._eq_halves(Y)]
+                vals = [_affine_value(ys, _lin_of_con(c)) for c in hs]
+                for i in range(len(hs)):
+                    for j in range(i + 1, len(hs)):
+                        di, dj = vals[i], vals[j]
+                        if di is None or dj is None or di == 0 or dj == 0:
+                            continue
+                        l = _lin_of_con(hs[i]).scale(dj) - _lin_of_con(hs[j]).scale(di)
+                        for c in (le0(l), le0(-l)):
+                            if isinstance(c, tuple) and c not in keep:
+                                keep.append(c)
         # template constraints x <= y between two variables of both sides (what both imply without either stating it):
         # this is what carries "cursor <= end" through a loop whose body re-derives it differently on every iteration
         va, vb = self._vars(a), self._vars(b)
@@ -832,7 +928,7 @@ class Analysis:
                         keep.append(c)
                         ka.add(c)
         r = _simplify(keep)
-        return frozenset(r if r is not False else [])
+        return frozenset(_reduce(r) if r is not False else [])
 
     def _hull(self, D):
         lst = sorted(D, key=lambda P: (len(P), sorted(map(repr, P))))
